@@ -638,6 +638,21 @@ func (c *c03) clientMethod(fi *FuncInfo, name string, serverTab map[string][]*sr
 					return true
 				})
 			default:
+				// the fid of a parameter file, obtained through a private helper that asserts its
+				// argument to *clientFile and hands back its fid (dirFID, err := clientFID(dir))
+				if pe := c.fidViaHelper(body, c.stripConv(val)); pe != nil {
+					pn := c.norm(pe)
+					for _, p := range params {
+						if p.name == pn {
+							ok = true
+							usedParams[pn]++
+							fields[ff] = pe // record as parameter use
+						}
+					}
+					if ok {
+						break
+					}
+				}
 				// fresh fid: fid(id) with id from fidPool.Get (a helper's parameter stands for the
 				// expression it was called with)
 				if obj := objOf(info, c.stripConv(s.mapExpr(info, c.stripConv(val)))); obj != nil {
@@ -1187,4 +1202,89 @@ func (c *c03) localENOSYS() {
 		reach := reachableFuncs(eff, []*types.Func{fi.Obj})
 		r.check(okRet && (sr == nil || !reach[sr.Obj]), "r6", "clientFile."+nm+" fails locally with ENOSYS", fi.Decl.Pos(), "returns ENOSYS, cannot reach sendRecv", nm+" does not return ENOSYS on every path or can reach sendRecv")
 	}
+}
+
+// fidViaHelper: val is a local of fi that receives, once, the first result of a private
+// function (one the pinned tree does not have) which asserts its only argument to *clientFile
+// and returns that file's fid on every return that does not carry an error; the argument
+// expression of the call is handed back.
+func (c *c03) fidViaHelper(fi *FuncInfo, val ast.Expr) ast.Expr {
+	info := c.info
+	obj, ok := objOf(info, val).(*types.Var)
+	if !ok || obj.IsField() {
+		return nil
+	}
+	var arg ast.Expr
+	n := 0
+	ast.Inspect(fi.Decl.Body, func(nd ast.Node) bool {
+		as, ok := nd.(*ast.AssignStmt)
+		if !ok {
+			return true
+		}
+		for i, l := range as.Lhs {
+			if objOf(info, l) != obj {
+				continue
+			}
+			n++
+			if i != 0 || len(as.Rhs) != 1 {
+				continue
+			}
+			call, isCall := unparen(as.Rhs[0]).(*ast.CallExpr)
+			if !isCall || len(call.Args) != 1 {
+				continue
+			}
+			tf := c.r.L.FuncOf(callee(info, call))
+			if tf == nil || tf.Decl.Body == nil || tf.Obj.Exported() || pinnedFuncs[tf.Key] || tf.Pkg != fi.Pkg {
+				continue
+			}
+			ps := tf.Decl.Type.Params.List
+			if len(ps) != 1 || len(ps[0].Names) != 1 {
+				continue
+			}
+			pobj := info.Defs[ps[0].Names[0]]
+			// cf, ok := f.(*clientFile)
+			var cf types.Object
+			ast.Inspect(tf.Decl.Body, func(n2 ast.Node) bool {
+				as2, isAs := n2.(*ast.AssignStmt)
+				if !isAs || len(as2.Rhs) != 1 || len(as2.Lhs) < 1 {
+					return true
+				}
+				if ta, isTA := unparen(as2.Rhs[0]).(*ast.TypeAssertExpr); isTA && ta.Type != nil && objOf(info, ta.X) == pobj && strings.HasSuffix(c.norm(ta.Type), "*clientFile") {
+					cf = objOf(info, as2.Lhs[0])
+				}
+				return true
+			})
+			if cf == nil {
+				continue
+			}
+			nret, nfid, okAll := 0, 0, true
+			inspectNoLit(tf.Decl.Body, func(n3 ast.Node) {
+				ret, isRet := n3.(*ast.ReturnStmt)
+				if !isRet {
+					return
+				}
+				nret++
+				if len(ret.Results) != 2 {
+					okAll = false
+					return
+				}
+				if sel, isSel := unparen(ret.Results[0]).(*ast.SelectorExpr); isSel && sel.Sel.Name == "fid" && objOf(info, sel.X) == cf {
+					nfid++
+					return
+				}
+				// otherwise the return carries an error
+				if isNilIdent(info, unparen(ret.Results[1])) {
+					okAll = false
+				}
+			})
+			if nret > 0 && nfid > 0 && okAll {
+				arg = call.Args[0]
+			}
+		}
+		return true
+	})
+	if n != 1 {
+		return nil
+	}
+	return arg
 }
